@@ -293,11 +293,11 @@ func (h *verifWHist) fieldsTokenRow(row map[string]interface{}, id int, mc *veri
 	row["raw"] = calls
 }
 
-// findings of the fields family also speak about C11 (conversion inside the running watcher)
+// findings of the fields family that speak about C11 (a fitting event decoded to other values, an unfit one not rejected)
 func verifWAlsoC11(mon []string) []string {
 	out := append([]string{}, mon...)
 	for _, m := range mon {
-		for _, pre := range []string{"C08|message-content|", "C08|poll-malformed|", "C08|reobs-malformed|", "C08|unknown-event|", "C09|batch-differs|", "C09|fatal-without-api-error|", "C09|panic|"} {
+		for _, pre := range []string{"C08|message-content|", "C08|poll-malformed|", "C08|reobs-malformed|", "C08|unknown-event|", "C09|batch-differs|"} {
 			if strings.HasPrefix(m, pre) {
 				out = append(out, "C11|pipeline-"+strings.SplitN(m, "|", 3)[1]+"|"+strings.SplitN(m, "|", 3)[2])
 			}
